@@ -570,6 +570,16 @@ class Evaluator:
             if (a[0] in ("fstr",) or (a[0] == "const" and isinstance(a[1], str))) or (b[0] == "fstr" or (b[0] == "const" and isinstance(b[1], str))):
                 return self.mk_fstr([self.snapshot(a), self.snapshot(b)])
             return ("concat", self.snapshot(a), self.snapshot(b))
+        if isinstance(op, ast.Mod) and a[0] == "const" and isinstance(a[1], str):
+            vals = list(b[1]) if b[0] == "tuple" else [b]
+            if a[1].count("%s") == len(vals) and a[1].count("%") == len(vals):
+                lit = a[1].split("%s")
+                out = []
+                for i, piece in enumerate(lit):
+                    out.append(("const", piece))
+                    if i < len(vals):
+                        out.append(self.snapshot(vals[i]))
+                return self.mk_fstr(out)
         if isinstance(op, ast.Sub):
             return ("setop", "-", self.snapshot(a), self.snapshot(b))
         if isinstance(op, ast.BitOr):
@@ -820,8 +830,14 @@ class Evaluator:
     def bind_params(self, a: ast.arguments, args, kwargs, env: Env, module, node) -> bool:
         pos = [*a.posonlyargs, *a.args]
         if any(x[0] == "starred" for x in args):
-            self.problem("*args of unknown length", node)
-            return False
+            # `f(*pair)`: a single trailing starred value fills the remaining required positional parameters
+            required = len(pos) - len(a.defaults)
+            if args[-1][0] == "starred" and sum(1 for x in args if x[0] == "starred") == 1 and a.vararg is None and required >= len(args) - 1:
+                v = args[-1][1]
+                args[-1:] = [self.index(v, ("const", i)) for i in range(required - (len(args) - 1))]
+            else:
+                self.problem("*args of unknown length", node)
+                return False
         if len(args) > len(pos) and a.vararg is None:
             self.problem("too many positional arguments", node)
             return False
@@ -1002,7 +1018,22 @@ class Evaluator:
             return self.mcoll_method(self.heap_colls[recv[1]], recv, name, args, kwargs, node)
         if t == "const" and isinstance(recv[1], str):
             if name == "join" and len(args) == 1:
-                return ("join", recv, self.snapshot(args[0]))
+                a = self.snapshot(args[0])
+                parts = list(a[1]) if a[0] == "tuple" else [x[1] for x in a[2]] if a[0] == "coll" and a[1] == "list" and all(x[0] == "elem" for x in a[2]) else None
+                if parts is not None:
+                    out = []
+                    for i, x in enumerate(parts):
+                        out += ([recv] if i else []) + [x]
+                    return self.mk_fstr(out)
+                return ("join", recv, a)
+            if name == "format" and not kwargs and recv[1].count("{}") == len(args) and recv[1].count("{") == len(args):
+                lit = recv[1].split("{}")
+                out = []
+                for i, piece in enumerate(lit):
+                    out.append(("const", piece))
+                    if i < len(args):
+                        out.append(self.snapshot(args[i]))
+                return self.mk_fstr(out)
             if name == "format":
                 return ("opaque", "str.format", (recv, *map(self.snapshot, args)))
         if t in ("sym", "var", "index", "attr", "valof", "coll", "wrap", "setop", "get", "concat", "stage", "keys", "values", "items", "boolop", "inst"):
